@@ -185,6 +185,15 @@ fn gen_scope_string(t: &mut Tape) -> String {
         3 => "service".into(),
         4 => "\u{0}\u{7f}".into(),
         5 => "日本".into(),
+        6 if t.chance(3) => {
+            // long and not ASCII (multi-byte characters straddle every offset around 32 / 64)
+            let target = [30, 31, 32, 33, 63, 64, 65, 100][t.below(8)];
+            let mut s = String::new();
+            while s.len() < target {
+                s.push(['é', '日', 'a', '-'][t.below(4)]);
+            }
+            s
+        }
         _ => {
             let n = t.below(12);
             (0..n).map(|_| (0x20 + t.below(0x5f) as u8) as char).collect()
@@ -787,7 +796,7 @@ fn run_c10(t: &mut Tape, tier: Tier) -> RunOut {
     // malformed escapes are refused as a malformed query string
     if t.chance(3) {
         let mut q = String::from_utf8_lossy(&spell_pairs(&pairs, t, 0, false)).to_string();
-        q.push_str(["&x=%", "&%4", "&a=%zz", "&%G0=1", "&=%0g", "&a=%+f", "&%+A=1", "&a=%-1", "&a=%aé", "&%é=1", "&a=%x1"][t.below(11)]);
+        q.push_str(["&x=%", "&%4", "&a=%zz", "&%G0=1", "&=%0g", "&a=%+f", "&%+A=1", "&a=%-1", "&a=%aé", "&%é=1", "&a=%x1", "&X-Amz-Signature=%zz", "&X-Amz-Signature=ab%2", "&X-Amz-Signature=%"][t.below(14)]);
         out.probe("malformed_query_direct");
         match lib_canonical_query(&q) {
             Ok(Err(k)) if k.contains("MalformedQueryString") => {}
